@@ -1636,6 +1636,25 @@ def m_int_method(opname):
     return m
 
 
+def m_ascii_case(lower):
+    """u8 / char to_ascii_lowercase / to_ascii_uppercase on a constant"""
+    def m(eng, st, args, info):
+        a = args[0]
+        guard = 0
+        while a[0] in ('ref', 'K', 'der') and guard < 6:
+            guard += 1
+            a = eng._read_lv(st, a[1]) if a[0] == 'ref' else a[1]
+        if is_const(a) and isinstance(a[1], int) and not isinstance(a[1], bool):
+            v = a[1]
+            if lower and 65 <= v <= 90:
+                v += 32
+            if not lower and 97 <= v <= 122:
+                v -= 32
+            return [(st, C(v))]
+        return None
+    return m
+
+
 def m_from_into(eng, st, args, info):
     # numeric widening only (From<u8> for usize etc.); anything else stays an opaque pure call
     ce = info['callee']
@@ -1862,6 +1881,8 @@ def m_slice_get(eng, st, args, info):
 
 PATTERN_MODELS = [
     (re.compile(r'^core::slice::<impl \[T\]>::get(::<.*>)?$'), m_slice_get),
+    (re.compile(r'^core::num::<impl u8>::to_ascii_lowercase$'), m_ascii_case(True)),
+    (re.compile(r'^core::num::<impl u8>::to_ascii_uppercase$'), m_ascii_case(False)),
     (re.compile(r'^core::num::<impl \w+>::trailing_zeros$'), m_int_method('trailing_zeros')),
     (re.compile(r'^core::num::<impl \w+>::count_ones$'), m_int_method('count_ones')),
     (re.compile(r'^core::num::<impl \w+>::wrapping_add$'), m_int_method('wrapping_add')),
